@@ -134,9 +134,12 @@ def strategies():
         S.dates.map(lambda d: {"t": "date", "v": d.isoformat()}),
         dt(),
     )
+    # dict keys beginning with "_memento" are reserved by the encoding (in-band type tags) and are not user data;
+    # Hypothesis would otherwise offer the literal "_mementoType" it finds in this module's source
+    S.text_key = S.text.filter(lambda k: not k.startswith("_memento"))
     simple = st.recursive(scalar, lambda ch: st.one_of(
         st.lists(ch, max_size=3).map(lambda v: {"t": "list", "v": v}),
-        st.dictionaries(st.one_of(S.text, st.sampled_from(["a", "b", "k"])), ch, max_size=3).map(lambda v: {"t": "dict", "v": v}),
+        st.dictionaries(st.one_of(S.text_key, st.sampled_from(["a", "b", "k"])), ch, max_size=3).map(lambda v: {"t": "dict", "v": v}),
     ), max_leaves=5)
 
     @st.composite
@@ -160,7 +163,7 @@ def strategies():
 
     arg = st.recursive(st.one_of(scalar, scalar, fnref()), lambda ch: st.one_of(
         st.lists(ch, max_size=3).map(lambda v: {"t": "list", "v": v}),
-        st.dictionaries(st.one_of(S.text, st.sampled_from(["a", "b", "k"])), ch, max_size=3).map(lambda v: {"t": "dict", "v": v}),
+        st.dictionaries(st.one_of(S.text_key, st.sampled_from(["a", "b", "k"])), ch, max_size=3).map(lambda v: {"t": "dict", "v": v}),
     ), max_leaves=6)
     ctx = st.one_of(st.none(), st.just({}), st.dictionaries(st.sampled_from(["tenant", "asof", "x"]), simple, min_size=1, max_size=2))
     return types.SimpleNamespace(scalar=scalar, simple=simple, fnref=fnref, arg=arg, ctx=ctx, dt=dt, S=S)
